@@ -7,7 +7,7 @@ from ..runner import Sub
 
 PROPERTY = "C03"
 RULE = (
-    "case = env + config (incl. reward mode: mTSP minmax/sum, open/closed MTVRP variants, OP prize types, "
+    "case = env (12 routing + FJSP/JSSP/FFSP/SMTWTP/FLP/MCP) + config (incl. reward mode: mTSP minmax/sum, open/closed MTVRP variants, OP prize types, "
     "deterministic/stochastic PCTSP) + batch of generator/lattice/float instances + per-row choice streams. "
     "Oracle = objective recomputed in float64 from the original instance and the executed (padded) action "
     "sequence alone; tolerance 1e-5*(1+sum|terms|). Also env.get_reward through rl4co.utils.decoding.rollout "
@@ -103,7 +103,54 @@ def execute_rollout(case, ctx):
     ctx.event(f"env:{name}|{sl}")
 
 
+def execute_sched(case, ctx):
+    """Scheduling / selection objectives recomputed from the instance and the action list alone (reference
+    simulators re-derive the schedule from the actions; FLP/MCP/SMTWTP are closed formulas)."""
+    from ..oracles.scheduling import FFSPModel, JobShopModel, judge_flp, judge_mcp, judge_smtwtp
+
+    spec, env, inst, insts, ep = play(case, ctx)
+    name, cfg = case["env"], case["cfg"]
+    sl = spec.slice_of(cfg)
+    ctx.event(f"env:{name}|{sl}")
+    if ep.dead_end is not None or ep.cap_hit or ep.T == 0:
+        return
+    A = ep.actions_tensor()
+    rew = ctx.guard(env.get_reward, ep.td.clone(), A.clone(), what=f"get_reward|{name}|{sl}").reshape(-1).double()
+    for b in range(len(insts)):
+        acts = A[b].tolist()
+        if name in ("fjsp", "jssp", "ffsp"):
+            m = JobShopModel(insts[b], name == "jssp", cfg["mask_no_ops"]) if name != "ffsp" else FFSPModel(insts[b], cfg["stages"], cfg["mas"])
+            ok = True
+            for a in acts:
+                if m.done:
+                    break
+                if not m.mask()[a]:
+                    ok = False
+                    break
+                m.step(a)
+            if not ok or not m.done:
+                ctx.event("model_disagrees(C07 territory)")
+                continue
+            if name == "ffsp":
+                obj = -float(max(m.start[mm][j] + m.R[j][mm] for j in range(m.J) for mm in range(m.T) if m.start[mm][j] >= 0))
+            else:
+                obj = -max(m.finish[o] for o in m.assign)
+            terms = abs(obj)
+        else:
+            v = {"smtwtp": judge_smtwtp, "flp": judge_flp, "mcp": judge_mcp}[name](insts[b], acts, cfg)
+            if v.viol:
+                continue
+            obj, terms = v.obj, v.terms
+        if not close(float(rew[b]), obj, terms):
+            ctx.violation(f"{name}|{sl}|reward_mismatch", f"reward {float(rew[b])} != objective {obj} (row {b})",
+                          {"row": b, "actions": acts, "instance": insts[b]})
+        if len(acts) >= 3 and obj != 0:
+            ctx.nontriv({"c": case, "row": b})
+
+
 SUBS = [
+    Sub("sched_graph", execute_sched, strategy=lambda tier: episode_cases(tier, ["fjsp", "jssp", "ffsp", "smtwtp", "flp", "mcp"]),
+        budget={"quick": 2000, "thorough": 30000}, shards=16),
     Sub("episodes", execute, strategy=lambda tier: episode_cases(tier, ENVS),
         budget={"quick": 5000, "thorough": 80000}, shards=16),
     Sub("rollout", execute_rollout, strategy=lambda tier: episode_cases(tier, ENVS, sources=("gen",)),
